@@ -34,6 +34,7 @@ type fakeRegion struct {
 	genOK    bool
 	encOK    bool
 	decOK    bool
+	partial  bool      // GenerateDataKey answers without error but with an empty CiphertextBlob (the plaintext is there)
 	log      *[]string // shared, ordered call log "gen:<id>", "enc:<id>", "dec:<id>"
 	logMu    *sync.Mutex
 	retained [][]byte // plaintext slices handed to the plugin (must be wiped by it)
@@ -75,6 +76,9 @@ func (f *fakeRegion) generate() ([]byte, []byte, error) {
 	f.mu.Lock()
 	f.retained = append(f.retained, pt)
 	f.mu.Unlock()
+	if f.partial {
+		return pt, []byte{}, nil
+	}
 	return pt, f.seal(pt), nil
 }
 
@@ -168,6 +172,7 @@ type kmsCase struct {
 	UnwrapOK  bool   `json:"unwrapok"`
 	Same      bool   `json:"same"` // unwrapped bytes equal the original key
 	Attempts  []int  `json:"attempts"`
+	Partial   []bool `json:"partial,omitempty"` // regions whose GenerateDataKey response is incomplete (wipe monitor only, C10)
 	Viol      []string `json:"viol,omitempty"`
 }
 
@@ -226,6 +231,12 @@ func runKmsCase(c *kmsCase, r *gen.Rand) {
 		regs = append(regs, &fakeRegion{id: i, name: fmt.Sprintf("region-%d", i), arn: fmt.Sprintf("arn:aws:kms:region-%d:key/%d", i, i),
 			genOK: c.Gen[i], encOK: c.Enc[i], decOK: true, log: &log, logMu: &logMu})
 	}
+	anyPartial := false
+	for i, p := range c.Partial {
+		if i < len(regs) && p {
+			anyPartial = true
+		}
+	}
 	viol := func(f string, a ...any) { c.Viol = append(c.Viol, fmt.Sprintf(f, a...)) }
 	all := make([]int, c.N)
 	for i := range all {
@@ -249,8 +260,9 @@ func runKmsCase(c *kmsCase, r *gen.Rand) {
 	key := make([]byte, 32)
 	rand.Read(key)
 	orig := append([]byte(nil), key...)
-	for _, rg := range regs {
+	for i, rg := range regs {
 		rg.retained = nil
+		rg.partial = i < len(c.Partial) && c.Partial[i]
 	}
 	env, err := wp.EncryptKey(context.Background(), key)
 	c.WrapOK = err == nil
@@ -265,7 +277,7 @@ func runKmsCase(c *kmsCase, r *gen.Rand) {
 		}
 		rg.retained = nil
 	}
-	if err != nil {
+	if err != nil || anyPartial {
 		return
 	}
 	var parsed struct {
@@ -407,6 +419,19 @@ func runKms(a *args) error {
 				}
 			}
 		}
+	}
+	if a.extra == "partial" {
+		// incomplete GenerateDataKey answers: only the wipe of every plaintext the KMS handed out is judged
+		for i := 0; i < a.n; i++ {
+			n := 1 + r.Intn(4)
+			c := &kmsCase{N: n, Pref: r.Intn(n), Gen: bits(r.Intn(1<<uint(n)), n), Enc: bits(r.Intn(1<<uint(n)), n), Dec: bits((1<<uint(n))-1, n),
+				WrapV: 1 + r.Intn(2), UnwrapV: 1, DecN: n, Partial: bits(1+r.Intn((1<<uint(n))-1), n)}
+			for j := range c.Gen {
+				c.Gen[j] = c.Gen[j] || r.Chance(2, 3)
+			}
+			emit(c)
+		}
+		return gen.WriteJSON(a.out, map[string]any{"cases": out})
 	}
 	for i := 0; i < a.n; i++ {
 		n := 1 + r.Intn(4)
